@@ -103,7 +103,7 @@ Section Sys.
 
   Lemma sound_step s p o : Sound s p -> Sound (step s o) (pstep p o).
   Proof.
-    intros [HM HS]. unfold Sound. destruct o as [w j c|w j c|j nm v]; cbn [Model.step pstep mem store].
+    intros [HM HS]. unfold Sound. destruct o as [w j c|w j c|j nm v|]; cbn [Model.step pstep mem store]; [| | |exact (conj HM HS)].
     - (* Present *) split.
       + intros k c' d. destruct (has_mem w) eqn:Hw.
         * destruct (list_eq_dec N.eq_dec (challenge_key c) k) as [<-|Hne].
@@ -261,7 +261,7 @@ Section Sys.
 
   Lemma live_step s p o : Live s p -> wf_from sf issuers p [o] = true -> Live (step s o) (pstep p o).
   Proof.
-    intros (LM & LS & LV & ND). cbn [wf_from]. destruct o as [w j c|w j c|j nm v]; [| |discriminate].
+    intros (LM & LS & LV & ND). cbn [wf_from]. destruct o as [w j c|w j c|j nm v|]; [| |discriminate|intros _; exact (conj LM (conj LS (conj LV ND)))].
     - (* Present *)
       rewrite !andb_true_iff. intros [[Hfresh Hj] _].
       pose proof (fresh_key_spec _ _ Hfresh) as Hnin.
@@ -313,9 +313,10 @@ Section Sys.
   Lemma wf_from_cons p o ops : wf_from sf issuers p (o :: ops) = true ->
     wf_from sf issuers p [o] = true /\ wf_from sf issuers (pstep p o) ops = true.
   Proof.
-    cbn [wf_from]. destruct o as [w j c|w j c|j nm v]; [| |discriminate].
+    cbn [wf_from]. destruct o as [w j c|w j c|j nm v|]; [| |discriminate|].
     - rewrite !andb_true_iff. intros [[H1 H2] H3]. repeat split; assumption.
     - rewrite !andb_true_iff. intros [H1 H2]. repeat split; assumption.
+    - intros H. split; [reflexivity|exact H].
   Qed.
 
   Lemma live_fold ops : forall s p, Live s p -> wf_from sf issuers p ops = true ->
